@@ -198,7 +198,7 @@ func (s *c11Station) zmq() {
 	if len(s.known) < 8 {
 		s.out.Note(fmt.Sprintf("only %d of 12 well-formed registrations were admitted", len(s.known)))
 	}
-	n := vlib.Budget(4000, 250000)
+	n := vlib.Budget(12000, 250000)
 	for i := 0; i < n; i++ {
 		w := s.g.Wrapper(i)
 		b := vlibc11.Marshal(w)
@@ -207,7 +207,7 @@ func (s *c11Station) zmq() {
 			s.ingest(s.g.Mutate(b), "mutated")
 		}
 	}
-	for i := 0; i < vlib.Budget(1000, 50000); i++ {
+	for i := 0; i < vlib.Budget(3000, 50000); i++ {
 		s.ingest(s.r.Bytes(s.r.Intn(80)), "random")
 	}
 	// a well-formed message with one field bent at a time
@@ -427,7 +427,7 @@ func (s *c11Station) flights() {
 			}
 		}
 	}
-	for i := 0; i < vlib.Budget(1500, 80000); i++ {
+	for i := 0; i < vlib.Budget(4000, 80000); i++ {
 		var d []byte
 		switch s.r.Intn(3) {
 		case 0:
@@ -456,7 +456,7 @@ func (s *c11Station) params() {
 	var parsed []any
 	parsed = append(parsed, nil, &pb.GenericTransportParams{}, (*pb.GenericTransportParams)(nil), &pb.PrefixTransportParams{},
 		(*pb.PrefixTransportParams)(nil), &pb.DTLSTransportParams{}, (*pb.DTLSTransportParams)(nil), 7, "x")
-	n := vlib.Budget(3000, 150000)
+	n := vlib.Budget(8000, 120000)
 	for i := 0; i < n; i++ {
 		a := s.g.Any(i % 4)
 		if s.r.Chance(1, 5) && a != nil {
@@ -557,6 +557,8 @@ func TestVerifC11Station(t *testing.T) {
 	defer out.Close()
 	s := newC11Station(t, out)
 	if rp := vlib.Replay(); rp != "" {
+		// one fixed case so that the driver always has something to answer, then the file
+		s.wrap("min", min.Transport{}, nil, net.ParseIP("192.122.190.250"), "ingress|min|-|")
 		s.replay(rp)
 		return
 	}
